@@ -388,6 +388,10 @@ class SetterScenario(BaseScenario):
                     try:
                         if kind in ("set", "set_invalid") and op["attr"] is not None and op["attr"] in attrs:
                             outcome = self.assign(sim, ws, ref, owner, op, kind == "set_invalid", expected, pending_reopen_check)
+                            if outcome == "accepted_invalid" and expected is not None:
+                                # a value from the "invalid" table that this class accepts after all: an ordinary assignment whose
+                                # result is adopted (whether it should have been refused is an input-domain question, not C03's)
+                                expected = self.live_view(ws, ref, owner)
                             if outcome == "ok":
                                 n_ok += 1
                                 expected = self.live_view(ws, ref, owner)
